@@ -2,8 +2,8 @@
     subset has already fired when the aggregate is built, every canceller behaviour, every flag combination and
     every schedule of later firings and cancellations of the aggregate.  [proc s] is the ghost list of
     (index, outcome) pairs in the order in which the aggregate's callback processed them (newest first).
-    race is modelled and tied to the code by the correspondence check and the oracle only (no theorem yet). *)
-From Coq Require Import List Arith ZArith Bool.
+    The race theorems are at the end. *)
+From Coq Require Import List Arith ZArith Bool Sorted Permutation.
 From C04 Require Import Model Proofs.
 Import ListNotations.
 
@@ -79,7 +79,7 @@ Print Assumptions gather_values_or_first_failure.
 
 (** cancelling an unfired DeferredList cancels its inputs: afterwards every input has fired; an input's canceller
     is called exactly when the input has not fired yet (an already fired input is left alone).
-    (For gatherResults the same lemmas apply with the flags (false, true); for race: not proved.) *)
+    (For gatherResults the same lemmas apply with the flags (false, true); for race see below.) *)
 Theorem dl_cancel_aggregate_fires_every_input : forall f1 f2 ce s, agg s = None ->
   forall i, i < n_of s -> res (get i (step (KList f1 f2 ce) s CancelAgg)) <> None.
 Proof. exact fact_cancel_fires_all. Qed.
@@ -91,6 +91,77 @@ Theorem dl_canceller_called_iff_input_pending : forall f1 f2 ce s i,
   (res (get i s) <> None -> cancel_input (dl_cb f1 f2 ce) i s = s).
 Proof. exact cancel_input_log. Qed.
 Print Assumptions dl_canceller_called_iff_input_pending.
+
+(** ---- race ---- *)
+
+(** the result Deferred of race fires at most once; neither of the two unguarded firings in the code
+    ([final_result.callback] in [succeeded], [final_result.errback] in [failed]) ever hits a fired Deferred *)
+Theorem race_fires_once : forall inputs ops, inputs <> [] ->
+  let s := run KRace inputs ops in
+  length (aggs (log s)) <= 1 /\ twice (log s) = false /\ (forall r, In r (aggs (log s)) <-> agg s = Some r).
+Proof. exact rf_once. Qed.
+Print Assumptions race_fires_once.
+
+(** winner / failure_state compute the specification, through the cancel loop nested in [succeeded] and through
+    cancellation of the race itself: the first processed success wins; otherwise, when every input has been
+    processed, the FailureGroup; it never ends in a bare CancelledError *)
+Theorem race_result_refines_spec : forall inputs ops, inputs <> [] ->
+  let s := run KRace inputs ops in
+  agg s = spec_race (length inputs) (rev (proc s)).
+Proof. exact rf_refines. Qed.
+Print Assumptions race_result_refines_spec.
+
+Theorem race_each_input_processed_at_most_once : forall inputs ops, inputs <> [] ->
+  let s := run KRace inputs ops in
+  NoDup (idx s) /\ forall i, In i (idx s) -> i < length inputs /\ res (get i s) <> None.
+Proof. exact rf_processed_once. Qed.
+Print Assumptions race_each_input_processed_at_most_once.
+
+(** race fires with (index, value) of the first success processed ... *)
+Theorem race_first_success_wins : forall n chron i v,
+  spec_race n chron = Some (AWin i v) ->
+  exists pre post, chron = pre ++ (i, Ok v) :: post /\ forall p, In p pre -> is_ok (snd p) = false.
+Proof. exact spec_race_win. Qed.
+Print Assumptions race_first_success_wins.
+
+(** ... and by then every other input has been cancelled: no input is left unfired (an input's canceller is
+    called exactly when it has not fired, [canceller_called_iff_input_pending]) *)
+Theorem race_first_success_cancels_others : forall inputs ops i v, inputs <> [] ->
+  let s := run KRace inputs ops in
+  agg s = Some (AWin i v) -> forall k, k < length inputs -> res (get k s) <> None.
+Proof. intros inputs ops i v Hne. exact (rf_win_all_fired inputs ops Hne i v). Qed.
+Print Assumptions race_first_success_cancels_others.
+
+Theorem canceller_called_iff_input_pending : forall cb i s,
+  (res (get i s) = None ->
+   cancel_input cb i s = fire_in cb i (cancel_outcome (canc (get i s))) (emit (ECancel i) s)) /\
+  (res (get i s) <> None -> cancel_input cb i s = s).
+Proof. exact cancel_input_cases. Qed.
+Print Assumptions canceller_called_iff_input_pending.
+
+(** if all fail, race fails with all the failures in input order: no success was processed, all n inputs were,
+    and the group lists the processed failures (a permutation of them) sorted by input index *)
+Theorem race_all_fail_in_input_order : forall n chron l,
+  spec_race n chron = Some (AGroup l) ->
+  (forall p, In p chron -> is_ok (snd p) = false) /\ length chron = n /\
+  exists fs, l = map snd fs /\ Permutation fs (fails_of chron) /\ StronglySorted le_idx fs /\ length fs = n.
+Proof. exact spec_race_group. Qed.
+Print Assumptions race_all_fail_in_input_order.
+
+(** cancelling a race (at any point of any schedule) cancels its inputs: afterwards every input has fired and
+    the race has fired with the winner or the FailureGroup, never with a bare CancelledError *)
+Theorem race_cancel_cancels_inputs_and_fires : forall inputs ops, inputs <> [] ->
+  let s' := run KRace inputs (ops ++ [CancelAgg]) in
+  agg s' <> None /\ agg s' <> Some ACancelled /\ forall k, k < length inputs -> res (get k s') <> None.
+Proof. exact rf_cancel. Qed.
+Print Assumptions race_cancel_cancels_inputs_and_fires.
+
+(** a non-trivial race: input 1 succeeds first; input 0 (pending) is cancelled and fails, input 2's canceller
+    fires it with a value, which is ignored *)
+Example nontrivial_race :
+  let s := run KRace [(CNothing, None); (CNothing, None); (CSucceed 5, None)] [Fire 1 (Ok (VInt 11))] in
+  agg s = Some (AWin 1 (VInt 11)) /\ rev (cancels (log s)) = [0; 2] /\ rev (idx s) = [1; 0; 2].
+Proof. vm_compute. repeat split. Qed.
 
 (** a non-trivial schedule: three inputs, the middle one fired before construction, fired in the order 2, 0 *)
 Example nontrivial_schedule :
